@@ -35,6 +35,14 @@ class IndexPlus:
         self.k = k
 
 
+class IndexTable:
+    """An integer-valued lookup table used to compute positions
+    (hierarchy link tables): a subscript yields an opaque index symbol."""
+
+    def __init__(self, name):
+        self.name = name
+
+
 class Unknown:
     __slots__ = ("why",)
 
@@ -738,6 +746,9 @@ class Interp:
             return Unknown("tuple subscript")
         if isinstance(base, Unknown):
             return Unknown("subscript of %s" % base.why)
+        if isinstance(base, IndexTable):
+            subs = self.eval_subscript(node.slice, env)
+            return Index("#%s[%s]" % (base.name, ",".join(_idxname(x) for x in subs)))
         if not isinstance(base, Array):
             return Unknown("subscript of %r" % (base,))
         subs = self.eval_subscript(node.slice, env)
